@@ -34,6 +34,7 @@ class EFloatContext__fixup(Contract):
     properties = ['C01']
     aliases = {'x._ctx': 'self'}          # callers set `x._ctx = self` first (obliged at call sites by pre[x_ctx])
     binds = {'result._ctx': 'self'}
+    options = {'noax_first_ms': 4000, 'light_theory': True}
 
     def pre(self, x):
         return {'x_ctx': same_obj(x._ctx, self)}
@@ -51,6 +52,7 @@ class EFloatFormat_maxval(Contract):
     returns = 'Float'
     properties = ['C01']
     no_use = ['EFloatFormat.representable_in']     # the C16 contract covers special values and zeros only: inline
+    options = {'noax_first_ms': 4000, 'light_theory': True}
 
     def pre(self, s):
         return {'maxval_member': ef2_fmt_maxval_ok(self),
